@@ -98,7 +98,7 @@ class FnModel:
                 return "mutable:" + n["name"]
             init = kids(d)
             if not init:
-                return "uninit"
+                return "local:" + n["name"]
             return self.origin(init[0], depth + 1)
         if k == "MemberExpr":
             base = kids(n)
